@@ -129,4 +129,13 @@ def cases(tier, rng, ifaces):
             add_group(out, gid, '-', x, [y, rng.choice(conts), bytes(rng.randrange(256) for _ in range(rng.randint(1, 4)))], False)
         gid += 1
         add_group(out, gid, '-', text, [b'X\n'], True)
+        # the accepted unit followed by long continuations (13, 20, 64… bytes): nothing but the remainder may change
+        d2 = rng.choice(echo.decls)
+        t2, _e2, _p2 = G.valid_call(rng, echo, d2, newline=True)
+        gid += 1
+        add_group(out, gid, '-', text, [b'X' * 13 + b'\n', b' ' * 12, t2 + b'\n' + t2 + b'\n', bytes(rng.randrange(256) for _ in range(rng.randint(13, 80)))], False)
+    for unit in (b'BOOL ON\n', b'BOOL OFF;', b'ECHO:BOOL? on\n', b'SET:STR abc\n', b'X\n', b'*IDN?;', b'TWO 1,"a"\n', b'SET:U8 #HFF;', b'BLK #12ab\n', b'SET:F64 1.5e3\n'):
+        for n in (1, 11, 12, 13, 14, 31, 32, 33, 100):
+            gid += 1
+            add_group(out, gid, '-', unit, [b'Z' * n, b'Z' * n + b'\n', b' ' * n, b'1' * n], False)
     return out
